@@ -98,6 +98,26 @@ def build_program(form, o, i, n, names, uva, uvk, partial, emulate):
                'class Sub(Base):\n'
                '    def wrapper(%s):\n        return %s\n') % (params_src(si), da, params_src(so), body)
         return src, lambda ns: {'Sub().wrapper': ns['Sub']().wrapper}
+    if form == 'apply_super_shared':
+        # ONE decorator object applied to two unrelated classes: each gets forgers for itself
+        body1 = 'functools.partial(super(Sub, self).wrapper, %s)' % ca if partial else 'super(Sub, self).wrapper(%s)' % ca
+        body2 = body1.replace('super(Sub, self)', 'super(Sub2, self)')
+        da = ', '.join(["'wrapper'", 'num_args=%d' % n, 'named_args=%r' % (tuple(name_of(k) for k in names),),
+                        'use_varargs=%s' % uva, 'use_varkwargs=%s' % uvk] + (['partial=True'] if partial else []))
+        src = ('import functools\nfrom sigtools.specifiers import *\n'
+               'deco = apply_forwards_to_super(%s)\n'
+               'class Base(object):\n' + falsy +
+               '    def wrapper(%s):\n        return None\n'
+               '@deco\n'
+               'class Sub(Base):\n'
+               '    def wrapper(%s):\n        return %s\n'
+               'class Base2(object):\n' + falsy +
+               '    def wrapper(%s):\n        return None\n'
+               '@deco\n'
+               'class Sub2(Base2):\n'
+               '    def wrapper(%s):\n        return %s\n') % (da, params_src(si), params_src(so), body1,
+                                                             params_src(si), params_src(so), body2)
+        return src, lambda ns: {'Sub().wrapper': ns['Sub']().wrapper, 'Sub2().wrapper': ns['Sub2']().wrapper}
     raise ValueError(form)
 
 
@@ -128,7 +148,7 @@ def program_checks(ctx, rep):
         uvk = has(o, 'VK') and rng.random() < 0.85
         partial = rng.random() < 0.15
         emulate = rng.random() < 0.3
-        form = rng.choice(['function', 'function', 'method', 'super', 'apply_super'])
+        form = rng.choice(['function', 'function', 'method', 'super', 'apply_super', 'apply_super_shared'])
         progs.append((form, o, i, n, names, uva, uvk, partial, emulate))
     # expected signatures from the model
     model = ask(['forwards %s %s %d %s 0 0 %s %s %s' % (tok_sig(o), tok_sig(i), n, tok_names(names), b(uva), b(uvk), b(partial))
@@ -158,7 +178,7 @@ def program_checks(ctx, rep):
                 with warnings.catch_warnings():
                     warnings.simplefilter('ignore')
                     sig = sigtools.signature(f)
-                    isig = inspect.signature(f) if (emulate and form != 'apply_super') else None
+                    isig = inspect.signature(f) if (emulate and not form.startswith('apply_super')) else None
             except ValueError as e:
                 if m[0] == 'ok':
                     rep.violation('C04:retrieval', '%s: sigtools.signature(%s) raised %s but forwards() of the same signatures succeeds' % (label0, label, classify_exc(e)), {'kind': 'program', 'src': src})
